@@ -264,6 +264,17 @@ func (cc *checkCtx) report() int {
 	solverSecs := 0.0
 	var open []*Obligation
 	for _, o := range all {
+		if o.Status != "trivial" && o.Status != "discharged" {
+			for _, ao := range cc.P.AssumedObls {
+				if strings.HasPrefix(o.Name, ao.Prefix) {
+					trusted["obligation assumed, not proved: "+o.Name+" ("+ao.Reason+")"] = true
+					o.Status = "assumed"
+				}
+			}
+		}
+		if o.Status == "assumed" {
+			continue
+		}
 		total++
 		switch o.Status {
 		case "trivial":
